@@ -61,16 +61,16 @@ type LReply struct {
 
 // LEndpoint is one simulated CA endpoint.
 type LEndpoint struct {
-	Name       string   `json:"name"`        // as configured: IP literal or passthrough:///host
-	Identity   string   `json:"identity"`    // genuine | other_ca | sibling_ca | self_signed | expired | not_yet | wrong_name
-	CA         int      `json:"ca"`          // index of the issuing configured CA (genuine and time/name impostors)
-	TLS        string   `json:"tls"`         // 1.1 | 1.2 | 1.3 : highest version the server offers (1.1 = only old versions)
-	ClientAuth string   `json:"client_auth"` // require | request | none
-	Dial       string   `json:"dial"`        // ok | refuse | stall | cut | slow
-	CutAfter   int      `json:"cut_after,omitempty"`
+	Name       string `json:"name"`        // as configured: IP literal or passthrough:///host
+	Identity   string `json:"identity"`    // genuine | other_ca | sibling_ca | self_signed | expired | not_yet | wrong_name
+	CA         int    `json:"ca"`          // index of the issuing configured CA (genuine and time/name impostors)
+	TLS        string `json:"tls"`         // 1.1 | 1.2 | 1.3 : highest version the server offers (1.1 = only old versions)
+	ClientAuth string `json:"client_auth"` // require | request | none
+	Dial       string `json:"dial"`        // ok | refuse | stall | cut | slow
+	CutAfter   int    `json:"cut_after,omitempty"`
 	// Heal: the dial fault lasts only for the Sign calls before this one (0: for the whole run)
-	Heal int `json:"heal,omitempty"`
-	Script     []LReply `json:"script"`
+	Heal   int      `json:"heal,omitempty"`
+	Script []LReply `json:"script"`
 }
 
 // LCfg is the signer configuration.
